@@ -95,6 +95,37 @@ def _solve_one(ob, timeout_ms, mode):
     s = Solver()
     s.set("timeout", int(timeout_ms))
     neg = Not(goal)
+    if ob.meta.get("theory") == "strings":
+        # string obligations: cvc5 (--strings-exp) decides what z3's sequence solver leaves unknown; a z3 QF model refutes
+        import subprocess
+        import tempfile
+        if mode != "direct":
+            return "unknown", 0.0, "cvc5-strings", "string obligations are only tried in direct mode"
+        s.add(hyps)
+        s.add(neg)
+        d = tempfile.mkdtemp(prefix="vfcvc5")
+        try:
+            fn = os.path.join(d, "q.smt2")
+            with open(fn, "w") as fh:
+                fh.write("(set-logic ALL)\n" + s.to_smt2())
+            try:
+                out = subprocess.run(["/usr/bin/cvc5", "--strings-exp", f"--tlimit={int(timeout_ms)}", fn], capture_output=True, text=True,
+                                     timeout=timeout_ms / 1000 + 5).stdout.strip()
+            except subprocess.TimeoutExpired:
+                out = "timeout"
+        finally:
+            import shutil
+            shutil.rmtree(d, ignore_errors=True)
+        if out.splitlines()[:1] == ["unsat"]:
+            return "unsat", time.time() - t0, "cvc5-1.0.3 --strings-exp", None
+        s.set("timeout", int(min(timeout_ms, 5000)))
+        r = s.check()
+        if r == sat:
+            m = s.model()
+            return "sat", time.time() - t0, "z3-qf-strings", {str(d_): str(m[d_]) for d_ in m.decls()[:20]}
+        if r == unsat:
+            return "unsat", time.time() - t0, "z3-qf-strings", None
+        return "unknown", time.time() - t0, "cvc5-1.0.3 --strings-exp", out[:200]
     if mode == "lin":
         from .linearize import linearize
         hs, g, side, nmono = linearize(hyps, goal)
@@ -149,7 +180,8 @@ def _solve_one(ob, timeout_ms, mode):
         fs = instantiate(hyps, neg, rounds=int(ob.meta.get("inst_rounds", 1)), extra_idx=ob.meta.get("idx", ()))
         s.add(fs)
         s.add(neg)
-        qf = not has_quant(fs)
+        # instantiation only weakens quantified hypotheses: a model is a candidate unless the original query was quantifier-free
+        qf = not has_quant(fs) and not has_quant(list(hyps) + [goal])
         backend = "z3-instantiated"
     else:
         s.add(hyps)
